@@ -243,10 +243,10 @@ def install_segment_tap() -> None:
     from dliswriter.logical_record.core.logical_record.logical_record_bytes import LogicalRecordBytes
     orig = LogicalRecordBytes.make_segments
 
-    def tapped(self, max_n_bytes):
+    def tapped(self, *args, **kwargs):
         if self._bts:
             TAP.append((bool(self._is_eflr), self._lr_type_struct[0] if self._lr_type_struct else None, bytes(self._bts)))
-        return orig(self, max_n_bytes)
+        return orig(self, *args, **kwargs)
     LogicalRecordBytes.make_segments = tapped
     _TAP_ON = True
 
